@@ -138,7 +138,7 @@ func c11TS(c *Ctx) {
 		c.Inconclusive("%v", err)
 		return
 	}
-	specs = g.Specs
+	specs = g.AllSpecs
 	for _, s := range specs {
 		src, err := os.ReadFile(g.TSPath(s.Name))
 		if err != nil {
